@@ -1,5 +1,6 @@
 """C19 — init segments built through the API are consistent and self-describing."""
 import json
+import os
 import common
 from common import sh2
 
@@ -56,9 +57,29 @@ def run(ctx):
     ]
     exe, model = build(ctx)
     pr = ctx.proofs("c19", "C19Theorems.v")
+    # generated parameter sets: the model driver's GEN mode (C15's extracted serialisers on generated field values)
+    npool = ctx.n(150, 2500)
+    pool_lines = common.run_model(model, "GEN\t%d\t%d\n" % (ctx.seed, npool))
+    pool_path = os.path.join(common.BUILD, "c19_pool_%d_%s.txt" % (ctx.seed, ctx.tier))
+    with open(pool_path, "w") as f:
+        f.write("\n".join(pool_lines) + "\n")
+    npsa = sum(1 for l in pool_lines if l.startswith("PSA\t"))
+    npsh = sum(1 for l in pool_lines if l.startswith("PSH\t"))
+    if npsa != npool or npsh != npool:
+        raise common.CheckError("GEN produced %d AVC / %d HEVC parameter sets instead of %d" % (npsa, npsh, npool))
+    profiles = sorted(set(int(l.split("\t")[4].split(".")[2]) for l in pool_lines if l.startswith("PSA\t")))
+    ctx.notes["generated_parameter_sets"] = {
+        "avc_sets": npsa, "hevc_sets": npsh, "avc_profile_idc_values": profiles,
+        "avc_chroma_formats": sorted(set(int(l.split("\t")[4].split(".")[5]) for l in pool_lines if l.startswith("PSA\t"))),
+        "hevc_profile_idc_values": sorted(set(int(l.split("\t")[4].split(".")[4]) for l in pool_lines if l.startswith("PSH\t"))),
+        "hevc_chroma_formats": sorted(set(int(l.split("\t")[4].split(".")[8]) for l in pool_lines if l.startswith("PSH\t"))),
+        "how": "field values generated over the whole SPS/PPS syntax (profiles, chroma formats, bit depths, cropping, VUI/HRD, scaling "
+               "lists, POC types, 1-3 SPS and 0-3 PPS per call, an SPS extension NAL unit in 15% of the AVC sets), serialised by the "
+               "extracted C15Spec.nalu_sps/nalu_pps and C15HevcSpec.hnalu_sps/hnalu_pps; kept iff sps_valid/pps_valid/hsps_valid/hpps_valid",
+    }
     # correspondence
     n = ctx.n(2000, 80000)
-    rc, cases, e = sh2([exe, "corr", "-seed", str(ctx.seed), "-n", str(n)], timeout=3000)
+    rc, cases, e = sh2([exe, "corr", "-seed", str(ctx.seed), "-n", str(n), "-pool", pool_path], timeout=3000)
     if rc != 0:
         raise common.CheckError("harness corr failed: " + e[-1000:])
     lines = cases.splitlines()
@@ -66,7 +87,7 @@ def run(ctx):
     mism = [l for l in res if not l.startswith("OK ")]
     distinct = len(set(l.split("\t", 2)[2] for l in lines if l.count("\t") >= 2))
     outcomes = {"all_ok": 0, "with_error": 0, "with_panic": 0}
-    kinds = {k: sum(1 for l in lines if l.startswith(k + "\t")) for k in ("S", "M", "L", "P")}
+    kinds = {k: sum(1 for l in lines if l.startswith(k + "\t")) for k in ("S", "M", "L", "P", "RA", "DA", "RH", "DH")}
     for l in lines:
         if not l.startswith("S\t"):
             continue
@@ -95,7 +116,7 @@ def run(ctx):
     ctx.log("correspondence: %d cases, %d mismatches" % (len(lines), len(mism)))
     # search
     ns = ctx.n(2000, 80000)
-    rc, so, e = sh2([exe, "search", "-seed", str(ctx.seed), "-n", str(ns)], timeout=3000)
+    rc, so, e = sh2([exe, "search", "-seed", str(ctx.seed), "-n", str(ns), "-pool", pool_path], timeout=3000)
     if rc != 0:
         raise common.CheckError("harness search failed: " + e[-1000:])
     fails = []
